@@ -309,7 +309,7 @@ fn main() {
     // ---- 4. single-threaded runs on LONG and WIDE graphs (more than one 1500-job block) ----------------
     // corridor (every state has one real successor plus a self-loop / ignored action), star (one hub with
     // thousands of leaves), many initial states; the witness of p1/p2 sits at the far end / last leaf.
-    if prop == "c01" || prop == "c02" || prop == "c03" || prop == "c13" {
+    if prop == "c01" || prop == "c02" || prop == "c03" || prop == "c13" || prop == "c12" {
         let shapes = ["corridor", "star", "many-init", "comb", "wide-tree"];
         let reps = if th { 6 } else { 1 };
         for rep in 0..reps {
@@ -351,9 +351,12 @@ fn main() {
                     let visits: Arc<Mutex<Vec<Vec<u16>>>> = Arc::new(Mutex::new(vec![]));
                     let v2 = visits.clone();
                     let g2 = g.clone();
+                    // C12: a target_state_count beyond the first 1500-job block
+                    let target: Option<usize> = if prop == "c12" { Some(1600 + r.below(reach.len().saturating_sub(1600).max(1))) } else { None };
                     let res = catch_unwind(AssertUnwindSafe(move || {
-                        let b = g2.clone().checker().threads(1)
+                        let mut b = g2.clone().checker().threads(1)
                             .visitor(move |p: stateright::Path<u16, u16>| { v2.lock().unwrap().push(p.into_states()); });
+                        if let Some(t) = target { b = b.target_state_count(t); }
                         match strat {
                             "bfs" => summarize(&b.spawn_bfs().join()),
                             "dfs" => summarize(&b.spawn_dfs().join()),
@@ -367,6 +370,13 @@ fn main() {
                             let vs = visits.lock().unwrap();
                             let mut lasts: Vec<u16> = vs.iter().map(|p| *p.last().unwrap()).collect();
                             lasts.sort();
+                            if prop == "c12" {
+                                let t = target.unwrap();
+                                if lasts != reach && count < t.min(reach.len()) {
+                                    out.v("big1-stopped-before-target-state-count", &format!("{} target={} state_count={} evaluated={}", desc, t, count, lasts.len()));
+                                }
+                                if !lasts.iter().all(|s| reach.binary_search(s).is_ok()) { out.v("big1-evaluated-unreachable", &desc); }
+                            }
                             if prop == "c01" {
                                 if lasts.windows(2).any(|w| w[0] == w[1]) { out.v("big1-state-evaluated-twice", &desc); }
                                 if lasts != reach { out.v("big1-evaluated-set-not-reachable-set", &format!("{} evaluated={}", desc, lasts.len())); }
